@@ -68,12 +68,13 @@ def run_order(k, layers, owners, ins, unit, j, inst):
     return [(n, ly) for n, ly, _t in r.ordered_layers()]
 
 
-def order(k, p, q, m0, inst, unit, j, own, *e):
+def order(k, p, q, m0, dup, inst, unit, j, own, *e):
     global LAST
     LAST = None
     inst, j = cb(inst), cb(j)
     unit = ci(unit, 0, 2)
     m0 = cb(m0)
+    dup = cb(dup)
     perms = PERM3 if k == 3 else PERM4
     naming = pick(perms, p)
     ins = pick(perms, q)
@@ -87,6 +88,9 @@ def order(k, p, q, m0, inst, unit, j, own, *e):
             n += 1
     names = [POOL[naming[i]] for i in range(k)]
     mods = ['w2' if (m0 and i == 0) else 'w' for i in range(k)]
+    if dup:            # two layers with the same __name__ in different modules
+        names[1] = names[0]
+        mods[0], mods[1] = 'w', 'w2'
     with untraced():
         try:
             layers, bases = build(k, edges, names, mods, inst)
@@ -138,7 +142,7 @@ def order_reach(k, *a):
 
 def _mk(k):
     ne = k * (k - 1) // 2
-    params = [('p', 'int'), ('q', 'int'), ('m0', 'bool'), ('inst', 'bool'), ('unit', 'int'), ('j', 'bool'), ('own', 'int')]
+    params = [('p', 'int'), ('q', 'int'), ('m0', 'bool'), ('dup', 'bool'), ('inst', 'bool'), ('unit', 'int'), ('j', 'bool'), ('own', 'int')]
     params += [('e%d' % i, 'bool') for i in range(ne)]
     call = '%d, ' % k + ', '.join(n for n, _ in params)
     nperm = 6 if k == 3 else 24
@@ -151,7 +155,7 @@ p4, c4, b4 = _mk(4)
 
 
 def _v(k, **kw):
-    v = dict(p=0, q=0, m0=False, inst=False, unit=0, j=False, own=(1 << k) - 1)
+    v = dict(p=0, q=0, m0=False, dup=False, inst=False, unit=0, j=False, own=(1 << k) - 1)
     for i in range(k * (k - 1) // 2):
         v['e%d' % i] = False
     v.update(kw)
@@ -165,12 +169,12 @@ SPEC = {
     'files': ['src/zope/testrunner/runner.py', 'src/zope/testrunner/find.py', 'src/zope/testrunner/layer.py'],
     'stubs': ['options from the real get_options on a concrete argv (evaluated untraced)'],
     'assumptions': ['layer graphs whose class MRO Python rejects (TypeError at class creation) are not layer graphs',
-                    'layer names are distinct (pool of 4 names, one node optionally in a second module)'],
+                    'full layer names (module + name) are distinct; two layers may share their __name__ across modules'],
     'outside': ['PYTHONHASHSEED is an interpreter start-up parameter: every slice is run under two fixed seeds (0 and 1) and the sets of '
                 'path summaries are compared - two points, not a quantifier', 'more than 4 layers'],
     'harnesses': [
         {'name': 'order3', 'fn': 'order', 'params': p3, 'call': c3,
-         'bounds': {'quick': b3 + ' and not j and not m0', 'thorough': b3},
+         'bounds': {'quick': b3 + ' and not j and not m0 and (not dup or (unit == 0 and own == 7 and not inst))', 'thorough': b3 + ' and not (dup and m0)'},
          'slices': {'quick': ['p == %d and %s' % (i, s) for i in range(6) for s in ('inst', 'not inst')],
                     'thorough': ['p == %d and q == %d' % (i, jx) for i in range(6) for jx in range(6)]},
          'hashseeds': [0, 1],
@@ -178,9 +182,9 @@ SPEC = {
                                                   'thorough': b3 + ' and p == 0 and q == 1 and not inst and not j and unit == 0 and own == 7'},
          'timeout': {'quick': 300, 'thorough': 850},
          'fidelity': [_v(3, e0=True, e2=True, q=3, unit=2), _v(3, p=4, q=2, e1=True, inst=True, own=5),
-                      _v(3, p=5, m0=True, e0=True, e1=True, unit=1)]},
+                      _v(3, p=5, m0=True, e0=True, e1=True, unit=1), _v(3, p=2, q=4, dup=True, e2=True)]},
         {'name': 'order4', 'fn': 'order', 'params': p4, 'call': c4,
-         'bounds': {'thorough': b4 + ' and not j and not m0 and unit == 0 and not inst and (own == 15 or own == 7 or own == 11 or own == 13 or own == 14)'},
+         'bounds': {'thorough': b4 + ' and not j and not m0 and not dup and unit == 0 and not inst and (own == 15 or own == 7 or own == 11 or own == 13 or own == 14)'},
          'slices': {'thorough': ['p == %d' % i for i in range(24)]},
          'reach': 'order_reach', 'reach_bounds': {'thorough': b4 + ' and p == 0 and q == 1 and not inst and not j and unit == 0 and own == 15'},
          'timeout': {'thorough': 1500},
